@@ -19,6 +19,7 @@ RULE = (
     "before or after positionals (exhaustive); duplicate keyword names are generated and counted as unspecified. with: nested with blocks "
     "to depth 3 around assigned, global and undefined names incl. assignment inside the block. Non-trivial = a call/with that binds >= 1 "
     "name, distinct by source."
+    " Rounds 5-6 added enumerated families: two or three calls of one definition (every ordered pair of 24 call shapes); calls whose arguments lack commas."
 )
 REQUIRED = [
     ("liquid/extra/tags/macro_tag.py", "CallNode.macro_args"),
